@@ -35,7 +35,7 @@ def model_checks(tier):
     return [dict(module='mc/MC_DecodeHistory', cfg='mc/MC_DecodeHistory_repaired', must_cover=['Decode'], workers=8)]
 
 
-BEHS = ['ok', 'ok_lead0', 'ok_letters', 'nondict', 'none', 'raise', 'importerror', 'absent']
+BEHS = ['ok', 'ok_lead0', 'ok_letters', 'nondict', 'none', 'raise', 'raise_empty', 'importerror', 'absent']
 
 
 def cases(tier, seed, info):
@@ -44,12 +44,12 @@ def cases(tier, seed, info):
     n = 3 if tier == 'quick' else 60
     for rep in range(n):
         for kind in ('UD', 'ED'):
-            for beh in BEHS + ['prog0', 'prog1', 'prog2', 'prog3', 'prog4', 'builtin', 'shipped_e500', 'shipped_2c00']:
+            for beh in BEHS + ['prog0', 'prog1', 'prog2', 'prog3', 'prog4', 'prog5', 'builtin', 'shipped_e500', 'shipped_2c00']:
                 for plugins in (True, False):
                     items.append(dict(t='ud', kind=kind, beh=beh, plugins=plugins, k=rep))
         for creator in ('X', 'Y', 'O', 'B', 'Q'):
             for ref in ('BD', 'BC', '11', 'ZZ'):
-                for beh in ('0', '1', '2', '3', '4'):
+                for beh in ('0', '1', '2', '3', '4', '5'):
                     for plugins in (True, False):
                         items.append(dict(t='src', creator=creator, ref=ref, beh=beh, plugins=plugins, k=rep))
         for a in ('BD8DAA', 'BC8AAA', 'BD8DBB', 'BD8DCC', '1100AA', 'BC8ACC'):
@@ -60,7 +60,7 @@ def cases(tier, seed, info):
                 for L in (0, 1, 8, 24, 40, 100):
                     items.append(dict(t='m2c00', sub=sub, ver=ver, L=L, k=rep))
         for creator in ('X', 'O', 'B'):
-            for proc in ('FIX0001', 'FIXBOOM', 'FIXJUNK', 'BMC0001', 'BMC0008', 'NOSUCH1'):
+            for proc in ('FIX0001', 'FIXBOOM', 'FIXEMPT', 'FIXJUNK', 'BMC0001', 'BMC0008', 'NOSUCH1'):
                 for plugins in (True, False):
                     items.append(dict(t='callout', creator=creator, proc=proc, plugins=plugins, k=rep))
     rng.shuffle(items)
@@ -82,7 +82,7 @@ def _ud(rng, it):
         comp = [0x66, 0x66]
         sel = int(beh[4])
         payload[0] = sel + 8 * rng.randrange(8)
-        real_beh = ['ok', 'nondict', 'none', 'raise', 'importerror'][sel]
+        real_beh = ['ok', 'nondict', 'none', 'raise', 'importerror', 'raise_empty'][sel]
         creator = rng.choice(['X', 'Y'])
     elif beh == 'builtin':
         creator, comp, fixture, real_beh = 'O', [0x20, 0x00], False, 'absent'
@@ -152,7 +152,7 @@ def _src(rng, it):
     s['words'][0][3] = (s['words'][0][3] & 0xF0) | int(it['beh'])
     pel = genpel.gen_pel(rng, kinds=[], creator=creator)
     pel['secs'] = [genpel.gen_mt(rng), s, genpel.gen_other(rng, 'MI')]
-    beh = {'0': 'ok', '1': 'null', '2': 'empty', '3': 'raise', '4': 'importerror'}[it['beh']]
+    beh = {'0': 'ok', '1': 'null', '2': 'empty', '3': 'raise', '4': 'importerror', '5': 'raise_empty'}[it['beh']]
     target = None
     if creator in ('X', 'Y'):
         target = creator.lower() + 'src'
